@@ -307,13 +307,13 @@ def write_cases(wd: Path, name: str, typ: str, okfun: str, items: list[str], sha
 
 
 def short_strings(tier):
-    """ALL strings of length <= 6 over {a, SP, TAB, NL}, and all of length <= 5 (thorough 6) over that
-    alphabet plus CR and FF that contain a CR or FF (seed-independent)."""
+    """ALL strings of length <= 6 (thorough 7) over {a, SP, TAB, NL}, and all of length <= 4 (thorough 6)
+    over that alphabet plus CR and FF that contain a CR or FF (seed-independent)."""
     res = []
     for n in range(0, 7 if tier == "quick" else 8):
         for t in itertools.product("a \t\n", repeat=n):
             res.append("".join(t))
-    for n in range(0, 6 if tier == "quick" else 7):
+    for n in range(0, 5 if tier == "quick" else 7):
         for t in itertools.product("a \t\n\r\x0c", repeat=n):
             if "\r" in t or "\x0c" in t:
                 res.append("".join(t))
@@ -1003,7 +1003,7 @@ def check(run: common.Run):
         + len({x[1] for x in iinfo if x[1] != x[2]}),
         rule=("text stages: the real format_code is run up to the end of its raw-text pre-pass with recording "
               "proxies; every intermediate text (expandtabs, rmspace, the three re.sub of fix_too_many_blank_lines) "
-              f"is compared with the model: ALL {n_short} strings of length <= 6 over {{a,SP,TAB,NL}} and <= 5 over "
+              f"is compared with the model: ALL {n_short} strings of length <= {6 if quick else 7} over {{a,SP,TAB,NL}} and <= {4 if quick else 6} over "
               "that alphabet + CR, FF (exhaustive, seed independent), the 2nd/3rd substitution and the whole "
               "function also on every raw string; then seeded generated modules (multi-line/raw/bytes/f-string "
               "literals with tabs, trailing blanks, blank-line runs, long lines, comments, odd indentation) with "
